@@ -1,6 +1,7 @@
 """C11 - truncation and slicing select exactly the requested range."""
 from __future__ import annotations
 
+import math
 from fractions import Fraction
 
 import numpy as np
@@ -193,8 +194,8 @@ def gen_session(rng):
             qs.append({"q": "slice_i", "start": rng.randint(-1, 6), "stop": rng.choice([None, rng.randint(-3, 14)]),
                        "step": rng.randint(1, 3)})
         else:
-            a = rng.choice([None, "@0", "@1", "@2", "1398101/4194304"])
-            b2 = rng.choice([None, "@-1", "@2", "@3", "9786709/4194304"])
+            a = rng.choice([None, "@0", "@1", "@2", "1398101/4194304", "~1:1", "~2:-2", "~0:3"])
+            b2 = rng.choice([None, "@-1", "@2", "@3", "9786709/4194304", "~3:1", "~2:4", "~-1:-1"])
             qs.append({"q": "slice_v", "start": a, "stop": b2, "step": rng.choice([1, 1, 2])})
     c["queries"] = qs
     if rng.random() < 0.35:
@@ -411,6 +412,14 @@ def judge_query(q, st, xf, yf):
     def val(v):
         if v is None:
             return None
+        if isinstance(v, str) and v.startswith("~"):
+            i, k_ = (int(t) for t in v[1:].split(":"))
+            if not xf:
+                return 0.5
+            t = xf[i % len(xf)]
+            for _ in range(abs(k_)):
+                t = math.nextafter(t, math.inf if k_ > 0 else -math.inf)      # the same rule as the runner's
+            return t
         if isinstance(v, str) and v.startswith("@"):
             i = int(v[1:])
             if not xf:
